@@ -9,6 +9,7 @@ package main
 
 import (
 	"fmt"
+	"regexp"
 	"go/ast"
 	"go/constant"
 	"go/token"
@@ -39,6 +40,8 @@ type Atom struct {
 	Conj     string         // shapes of sibling leaves that must hold jointly (conjunctive guard)
 	Skip     bool           // `if cond { continue }` filter inside a loop
 	ViaTags  []string       // blame tags attached by the caller's guard through which this atom was inherited
+	Substs   []paramSubst   // parameter substitutions of the inlining chain (innermost first)
+	CtxOuter string         // condition context of the call site(s) through which this atom was inherited
 	Outer    *Atom          // the caller's atom through which this atom was inherited
 }
 
@@ -81,6 +84,7 @@ type Unit struct {
 	rdIn    map[*cfg.Block]defSet
 	nodeBlk map[ast.Node]*cfg.Block
 	prog    *Program
+	eng     *GuardEngine
 }
 
 type Exit struct {
@@ -153,7 +157,7 @@ func (g *GuardEngine) litUnit(fd *FuncDecl, lit *ast.FuncLit) *Unit {
 
 func (g *GuardEngine) newUnit(fd *FuncDecl, lit *ast.FuncLit, body *ast.BlockStmt, sig *types.Signature) *Unit {
 	info := fd.Pkg.TypesInfo
-	u := &Unit{Fn: fd, Lit: lit, Body: body, Sig: sig, Info: info, prog: g.prog}
+	u := &Unit{Fn: fd, Lit: lit, Body: body, Sig: sig, Info: info, prog: g.prog, eng: g}
 	u.CFG = cfg.New(body, func(c *ast.CallExpr) bool { return !isPanicCall(info, c) })
 	u.preds = map[*cfg.Block][]*cfg.Block{}
 	u.nodeBlk = map[ast.Node]*cfg.Block{}
@@ -770,6 +774,11 @@ func (u *Unit) rootCalls(e ast.Expr, at ast.Node, seen map[ast.Node]bool, depth 
 			}
 			// accumulator idiom: a flag/abort-list updated under a condition depends on that condition
 			for _, ifs := range u.enclosingIfs(d.node) {
+				// only conditions that separate the update from the test matter: an `if` that encloses both the
+				// definition and its use is ordinary nesting, not an accumulator
+				if at != nil && ifs.Pos() <= at.Pos() && at.End() <= ifs.End() {
+					continue
+				}
 				if !seen[ifs] {
 					seen[ifs] = true
 					u.rootCalls(ifs.Cond, ifs.Cond, seen, depth+1, out)
@@ -1084,7 +1093,7 @@ func (u *Unit) leafShape(e ast.Expr, failTrue bool) string {
 				return neg + "(" + u.shapeOf(x) + ")"
 			}
 		}
-		l, r := u.shapeOf(x.X), u.shapeOf(x.Y)
+		l, r := u.condOperand(x.X), u.condOperand(x.Y)
 		if (op == token.EQL || op == token.NEQ) && l > r {
 			l, r = r, l
 		}
@@ -1264,6 +1273,17 @@ func (g *GuardEngine) flatAtoms(fd *FuncDecl, onPath map[*FuncDecl]bool, depth i
 					cp.ViaTags = append(append([]string{}, a.BlameTags()...), a.ViaTags...)
 				}
 				cp.Outer = a
+				// operands that are parameters of the helper are the call-site arguments
+				cp.Substs = append(append([]paramSubst{}, ha.Substs...), newParamSubst(a.Unit, c))
+				if !a.Must {
+					if cc := a.Unit.condContext(c); cc != "" {
+						if cp.CtxOuter != "" {
+							cp.CtxOuter = cc + "," + cp.CtxOuter
+						} else {
+							cp.CtxOuter = cc
+						}
+					}
+				}
 				out = append(out, &cp)
 			}
 		}
@@ -1301,6 +1321,9 @@ func (g *GuardEngine) InventoryOf(fd *FuncDecl) Inventory {
 			c.Args = append(c.Args, as)
 		}
 		tags := a.BlameTags()
+		for i := range tags {
+			tags[i] = applySubsts(tags[i], a.Substs)
+		}
 		if len(tags) == 0 {
 			tags = a.ViaTags
 		}
@@ -1309,8 +1332,8 @@ func (g *GuardEngine) InventoryOf(fd *FuncDecl) Inventory {
 		}
 	}
 	// standalone blame-tag sites (also those not inside a failure branch, e.g. accumulated aborts)
-	for _, u := range g.unitsOf(fd) {
-		for _, t := range u.tagSites() {
+	for _, t := range g.flatTagSites(fd, map[*FuncDecl]bool{}, 0) {
+		{
 			k := "blame-tag " + t
 			c := inv[k]
 			if c == nil {
@@ -1377,4 +1400,86 @@ func (g *GuardEngine) isNewFunc(f *types.Func) bool {
 		return false
 	}
 	return !g.known[FuncKey(f)]
+}
+
+// paramSubst maps the parameter tokens of an inlined helper ($0, $1, …, $recv) to the shapes of the
+// arguments at the call site.
+type paramSubst map[string]string
+
+func newParamSubst(u *Unit, c *ast.CallExpr) paramSubst {
+	ps := paramSubst{}
+	for i, a := range c.Args {
+		if i > 9 {
+			break
+		}
+		ps["$"+itoa(i)] = u.argShape(a, c, 1)
+	}
+	if sel, ok := ast.Unparen(c.Fun).(*ast.SelectorExpr); ok {
+		if f, ok := typeutil.Callee(u.Info, c).(*types.Func); ok && f.Type().(*types.Signature).Recv() != nil {
+			ps["$recv"] = u.argShape(sel.X, c, 1)
+		}
+	}
+	return ps
+}
+
+var paramTokenRe = regexp.MustCompile(`\$(recv|lit\d|\d)`)
+
+func (ps paramSubst) apply(s string) string {
+	if len(ps) == 0 || !strings.Contains(s, "$") {
+		return s
+	}
+	return paramTokenRe.ReplaceAllStringFunc(s, func(tok string) string {
+		if v, ok := ps[tok]; ok {
+			return v
+		}
+		return tok
+	})
+}
+
+func applySubsts(s string, ss []paramSubst) string {
+	for _, ps := range ss {
+		s = ps.apply(s)
+	}
+	return s
+}
+
+// flatTagSites: blame-tag value shapes of fd and of the private helpers it calls (with parameters
+// substituted by the call-site arguments).
+func (g *GuardEngine) flatTagSites(fd *FuncDecl, onPath map[*FuncDecl]bool, depth int) []string {
+	if onPath[fd] || depth > 4 {
+		return nil
+	}
+	onPath[fd] = true
+	defer delete(onPath, fd)
+	var out []string
+	for _, u := range g.unitsOf(fd) {
+		out = append(out, u.tagSites()...)
+		ast.Inspect(u.Body, func(n ast.Node) bool {
+			if lit, ok := n.(*ast.FuncLit); ok && lit != u.Lit {
+				return false
+			}
+			c, ok := n.(*ast.CallExpr)
+			if !ok {
+				return true
+			}
+			f := typeutil.StaticCallee(u.Info, c)
+			if f == nil || !InModule(f) {
+				return true
+			}
+			f = f.Origin()
+			if f.Exported() && !g.isNewFunc(f) {
+				return true
+			}
+			hd := g.prog.Funcs[f]
+			if hd == nil {
+				return true
+			}
+			ps := newParamSubst(u, c)
+			for _, t := range g.flatTagSites(hd, onPath, depth+1) {
+				out = append(out, ps.apply(t))
+			}
+			return true
+		})
+	}
+	return out
 }
